@@ -74,6 +74,23 @@ def build(prop, race=False):
     return out
 
 
+def build_cli():
+    """Builds the real CLI (package main of v2/app) from /repo's working tree with the hooks on and
+    one extra file overlaid (it only adds a blank import of harness/cliinit)."""
+    os.makedirs(BIN, exist_ok=True)
+    ov = os.path.join(BIN, "overlay.json")
+    with open(ov, "w") as f:
+        json.dump({"Replace": {"/repo/v2/app/zz_verif_init.go": os.path.join(VERIF, "overlay", "zz_verif_init.go")}}, f)
+    out = os.path.join(BIN, "kanzi-cli")
+    tmp = out + ".tmp%d" % os.getpid()
+    p = subprocess.run([GO, "build", "-tags", "verif", "-overlay", ov, "-o", tmp, "github.com/flanglet/kanzi-go/v2/app"],
+                       cwd=HARNESS, env=GOENV, stdout=subprocess.PIPE, stderr=subprocess.STDOUT, text=True)
+    if p.returncode != 0:
+        die2("CLI build failed:\n" + p.stdout[-4000:])
+    os.replace(tmp, out)
+    return out
+
+
 def load_known():
     path = os.path.join(VERIF, "KNOWN_FINDINGS.json")
     if not os.path.exists(path):
@@ -263,6 +280,11 @@ def check(prop, tier, seed):
     t0 = time.time()
     race = prop == "C18"
     binary = build(prop, race=race)
+    if prop == "C19":
+        os.environ["KSIM_CLI"] = build_cli()
+        scratch = os.path.join(os.environ.get("TMPDIR", "/tmp"), "ksim-c19-%d" % os.getpid())
+        os.makedirs(scratch, exist_ok=True)
+        os.environ["KSIM_SCRATCH"] = scratch
     plan = PLAN.get(prop, PLAN["default"])
     ncases, budget = (plan[0], plan[1]) if tier == "quick" else (plan[2], plan[3])
     if os.environ.get("VERIF_BUDGET"):
@@ -403,6 +425,9 @@ def check(prop, tier, seed):
     with open(os.path.join(VERIF, "evidence", prop + ".json"), "w") as f:
         json.dump(ev, f, indent=1)
     log("%s %s seed=%d: %d cases (%d ok, %d skip, %d fail) %d events, %d distinct schedules, %.1fs" % (prop, tier, seed, n, len(oks), len(skips), len(fails), events, len(scheds), wall))
+    if prop == "C19":
+        import shutil
+        shutil.rmtree(os.environ.get("KSIM_SCRATCH", "/nonexistent"), ignore_errors=True)
     if violations:
         sys.exit(1)
     if harness_err or n == 0:
@@ -414,6 +439,7 @@ def check(prop, tier, seed):
 
 GEN = "cases are drawn from a choice tape seeded by hash(VERIF_SEED, property, case index); "
 RULES = {
+    "C19": GEN + "a case is one file tree + option set + family (round trip / safety / kill points / sink failure) and several runs of the real CLI; kill-point cases first run fault-free under the in-process scheduler to count the events, then re-run with a self-SIGKILL at each chosen event (every event when the run has <= 120 events); simulated_events counts the events of all CLI runs; distinct = distinct (family, options, tree size) signatures",
     "C08": GEN + "a case is one scenario plus one simulated execution per sink/source call index of its fault-free run (evaluations = executions); non-trivial = the scenario makes at least one sink/source call; distinct = distinct (configuration signature, schedule signature) pairs",
     "C09": GEN + "a case is one valid stream plus one simulated decode per cut position (evaluations = decodes); every cut of streams <= 4 KiB in a quarter of the cases; distinct = distinct (configuration signature, schedule signature) pairs of cases with at least one cut",
     "C11": GEN + "a case is one stream of 0-12 blocks plus one simulated decode per block range (evaluations = decodes, all ranges 1<=from<=to<=blocks+3); distinct = distinct (configuration, schedule signature) pairs",
@@ -430,6 +456,7 @@ EXPECTED_PROBES = {
     "C03": ["rejected.with.error", "decoded.to.eof", "big.bwt.blocks"],
     "C10": ["corpus.entries", "differential.pairs"],
     "C18": ["instances"],
+    "C19": ["cli.runs", "kill.exhaustive.runs", "kill.source.gone.output.good", "safety.cases"],
     "C05": ["failed.block.reported", "damage.undetected.nochecksum", "parser.agrees"],
     "C06": ["src.short.not.multiple.of.8", "write.1byte"],
     "C07": ["handoff.cancel.observed", "handoff.failed.tasks", "handoff.io.by.holder", "handoff.end.of.stream.task", "sink.fault.while.task.holds", "src.fault.while.task.holds"],
@@ -439,8 +466,8 @@ EXPECTED_PROBES = {
     "C14": ["crosses.flush.boundary", "read.rechunked"],
     "C17": ["close.failed.then.retried", "close.repeated", "write.after.close.refused", "read.after.close.refused", "closed.without.data"],
 }
-REAL_EXTRA = {"C10": ["harness/ref: frozen copy of the pinned v2 tree (commit 76efab5) - reference Writer and Reader, real code, plain goroutines"]}
-STUB_EXTRA = {}
+REAL_EXTRA = {"C19": ["v2/app: the real CLI (package main, argument parsing included) built from the working tree; all its goroutines (file workers and block tasks) run under the in-process scheduler when KSIM_SEED is set"], "C10": ["harness/ref: frozen copy of the pinned v2 tree (commit 76efab5) - reference Writer and Reader, real code, plain goroutines"]}
+STUB_EXTRA = {"C19": ["process death: the simulated CLI SIGKILLs itself at the k-th simulation event (SIGKILL model: completed system calls survive; kanzi never calls fsync)", "file system: the real kernel file system in a scratch directory removed after each case", "disk full: the wrapped output file fails from the k-th write on"]}
 REAL_ONLY = {"C14": ["v2/bitstream (DefaultOutputBitStream, DefaultInputBitStream)"]}
 
 
